@@ -100,6 +100,10 @@ def _shard_main(args):
     out = {"violations": [], "error": None, "build": build}
     t0 = time.time()
     try:
+        if os.environ.get("VERIF_DEBUG_STACKS"):
+            import faulthandler
+
+            faulthandler.dump_traceback_later(float(os.environ["VERIF_DEBUG_STACKS"]), repeat=True, file=open(f"/tmp/vf_stacks_{os.getpid()}.txt", "w"))
         mod = _load_module(prop)
         subs = mod.subs(tier)
         # overall wall budget of one check (all sub-checks together): each sub gets at most an equal share of it
